@@ -75,6 +75,12 @@ var vhC17Tpl = []string{
 	// relative names inside loader-served templates in a directory; the loader also has templates under
 	// the names as written ('./part', 'part'): a failure of the resolved template must not be papered
 	// over by rendering one of those
+	// operands of `is defined`: an undefined name or attribute is tolerated there, a failing callback is not
+	"{% if xs[boomfn(0)] is defined %}y{% else %}n{% endif %}",
+	"{% if (xs|boom)[0] is defined %}y{% else %}n{% endif %}",
+	"{% if xs[0|boom] is not defined %}n{% else %}y{% endif %}",
+	"{{ (x|boom) is defined }}",
+	"{{ boomfn(x) is defined ? 'y' : 'n' }}",
 	"{% include 'dir/page' %}",
 	"{% include 'dir/ext' %}",
 	"{% include 'dir/imp' %}",
